@@ -121,8 +121,14 @@ func (h *Handler) FetchIQ(ctx context.Context, filter Query, iq stanza.IQ, s *xm
 		filter.ID = attr.RandomID()
 	}
 	if _, ok := h.tracked[filter.ID]; ok {
+		// There is no query behind this iterator: it is done from the start so
+		// that Next reports false (instead of waiting forever on channels that
+		// do not exist) and the caller finds the error.
+		done := make(chan struct{})
+		close(done)
 		return &Iter{
-			err: fmt.Errorf("history query %s is already being tracked", filter.ID),
+			err:  fmt.Errorf("history query %s is already being tracked", filter.ID),
+			done: done,
 		}
 	}
 	iq.Type = stanza.SetIQ
